@@ -55,7 +55,7 @@ def main():
             env["VERIF_EVIDENCE_DIR"] = os.path.join(d, "evidence")
             if repo != "/repo":
                 env["VERIF_REPO"] = repo
-                env["VERIF_BUILD"] = os.path.join(V, "build2")
+                env["VERIF_BUILD"] = os.path.join(V, "build4" if repo.endswith("wt-s3") else "build2")
             p = subprocess.run([os.path.join(V, "check"), c, "--tier", tier], stdout=subprocess.PIPE, stderr=subprocess.STDOUT, env=env, cwd=V)
             txt = p.stdout.decode("latin-1")
             viol = [l for l in txt.splitlines() if l.startswith("VIOLATION")]
